@@ -20,6 +20,7 @@ type Point struct {
 // X is one execution: it replays a prefix and answers 0 afterwards.
 type X struct {
 	prefix  []int
+	expect  []Point // the points the parent execution met along the prefix (nil for external replays)
 	Choices []int
 	Points  []Point
 	// Diverged is set when the replayed prefix does not fit the points met
@@ -37,8 +38,13 @@ func (x *X) Choose(area string, n int, bounded bool) int {
 	if i < len(x.prefix) {
 		a = x.prefix[i]
 		if a >= n {
-			x.Diverged = fmt.Sprintf("prefix answer %d out of range %d at point %d area %s", a, n, i, area)
+			if x.Diverged == "" {
+				x.Diverged = fmt.Sprintf("prefix answer %d out of range %d at point %d area %s", a, n, i, area)
+			}
 			a = 0
+		}
+		if i < len(x.expect) && x.Diverged == "" && (x.expect[i].Area != area || x.expect[i].N != n || x.expect[i].Bounded != bounded) {
+			x.Diverged = fmt.Sprintf("point %d is %s/%d, the execution this prefix was taken from met %s/%d there; points so far: %s", i, area, n, x.expect[i].Area, x.expect[i].N, x.String())
 		}
 	}
 	x.Choices = append(x.Choices, a)
@@ -98,7 +104,7 @@ type Explorer struct {
 func (e *Explorer) Explore() {
 	e.Stats.ByDev = map[int]int64{}
 	e.Stats.Bound = e.Bound
-	e.explore(nil, 0)
+	e.explore(nil, 0, nil)
 }
 
 // Replay runs a single execution with the given answers.
@@ -108,7 +114,7 @@ func Replay(prefix []int, run func(x *X)) *X {
 	return x
 }
 
-func (e *Explorer) explore(prefix []int, devBefore int) {
+func (e *Explorer) explore(prefix []int, devBefore int, expect []Point) {
 	if e.stop {
 		return
 	}
@@ -117,7 +123,7 @@ func (e *Explorer) explore(prefix []int, devBefore int) {
 		e.stop = true
 		return
 	}
-	x := &X{prefix: prefix}
+	x := &X{prefix: prefix, expect: expect}
 	ok := e.Run(x)
 	if x.Diverged != "" {
 		panic("explore: replay diverged: " + x.Diverged)
@@ -144,7 +150,7 @@ func (e *Explorer) explore(prefix []int, devBefore int) {
 				np := make([]int, i+1)
 				copy(np, x.Choices[:i])
 				np[i] = alt
-				e.explore(np, dev+cost)
+				e.explore(np, dev+cost, x.Points[:i+1])
 				if e.stop {
 					return
 				}
